@@ -135,6 +135,7 @@ class VConst(Value):
 
 
 UNIT = VAgg(name='()')
+TOMB = VAgg(name='<moved>')
 
 # enum variant tables (std); hannibal's own enums are added from source by the harness
 ENUMS = {
@@ -268,6 +269,9 @@ class Engine:
         self.no_havoc = []
         self.falsy = []        # callees returning concrete false
         self.trace_steps = False
+        self.tombstone_moves = False
+        self.conts = {}         # continuation tag -> handler(engine, st, data, return_value) -> None | [states]
+        self.drop_handler = None
 
     # ---- solver
     def feasible(self, st, extra=None):
@@ -501,6 +505,8 @@ class Engine:
         raise Unsupported(f"switch on {v!r}")
 
     def discriminant_of(self, st, v):
+        if isinstance(v, VAgg) and v.name == '<moved>':
+            raise Unsupported("discriminant of a moved-out value")
         if isinstance(v, VAgg):
             if v.disc is not None:
                 return VScalar(v.disc)
@@ -519,8 +525,13 @@ class Engine:
 
     # ---- operands / rvalues
     def eval_operand(self, st, frame, op):
-        if op.kind in ('copy', 'move'):
+        if op.kind == 'copy':
             return self.read_place(st, frame, op.place)
+        if op.kind == 'move':
+            v = self.read_place(st, frame, op.place)
+            if self.tombstone_moves and isinstance(v, VAgg) and v.name != '<moved>':
+                self.write_place(st, frame, op.place, TOMB)
+            return v
         c = op.const
         if c in ('true', 'false'):
             return VScalar(c == 'true')
@@ -602,6 +613,7 @@ class Engine:
             extra = {'upvars': rv.fields}
             if is_co:
                 extra['body'] = self.coroutine_body(frame.fn, name)
+                fields = self.reconstruct_captures(st, frame, rv, extra['body'], fields)
             return VAgg(name=name, disc=0 if is_co else None, fields=fields, extra=extra)
         if rv.fields is not None:
             # struct literal with named fields: order of declaration is the order printed by rustc
@@ -614,9 +626,54 @@ class Engine:
             return VAgg(name=enum, vname=vname, disc=idx, fields=fields)
         # tuple struct / unit struct / unknown enum
         if enum and enum[:1].isupper() and vname[:1].isupper() and enum not in ('Self',) and self._looks_like_enum(enum):
-            raise Unsupported(f"unknown enum variant {name}")
+            # variant of an enum we have no table for (e.g. atomic::Ordering): usable until its tag is read
+            return VAgg(name=enum, vname=vname, disc=None, fields={('v', vname, i): v for i, v in enumerate(ops)})
         fields = {('f', i): v for i, v in enumerate(ops)}
         return VAgg(name=strip_generics(name), fields=fields)
+
+    def reconstruct_captures(self, st, frame, rv, body, fields):
+        """rustc prints closure aggregates as zip(captured *variables*, operands): with disjoint field captures of one
+        variable (`self.ctx`, `self.stop`, ...) the operand list is cut short.  The missing captures are rebuilt from
+        the body's debug info (`debug self__config__timeout => ((*_1).3: ..)`) by navigating the constructor's
+        variable of that name along the named fields of the run-time value."""
+        ups = {}
+        for name, expr in body.debug.items():
+            m = re.match(r'^\(\(\*_\d+\)\.(\d+): ', expr)
+            if m:
+                ups[int(m.group(1))] = (name, False)
+                continue
+            m = re.match(r'^\(\*\(\(\*_\d+\)\.(\d+): &', expr)
+            if m:
+                ups[int(m.group(1))] = (name, True)
+        if not ups or max(ups) + 1 <= len(fields):
+            return fields
+        fields = dict(fields)
+        for idx in range(len(rv.ops), max(ups) + 1):
+            if idx not in ups:
+                raise Unsupported(f"cannot reconstruct capture #{idx} of {rv.name}")
+            name, by_ref = ups[idx]
+            parts = name.split('__')
+            root = frame.fn.debug.get(parts[0])
+            m = re.fullmatch(r'_(\d+)', root or '')
+            if not m:
+                raise Unsupported(f"capture {name}: no local named {parts[0]} in {frame.fn.name}")
+            local = int(m.group(1))
+            val = frame.locals.get(local)
+            keys = []
+            for fld in parts[1:]:
+                fn_names = (val.extra or {}).get('fieldnames') if isinstance(val, VAgg) else None
+                if not fn_names or fld not in fn_names:
+                    raise Unsupported(f"capture {name}: field {fld} not found in {val!r}")
+                k = ('f', list(fn_names).index(fld))
+                keys.append(k)
+                val = self.get_field(val, k)
+            if by_ref:
+                fields[('f', idx)] = VRef(('local', frame.fid, local), tuple(keys), True)
+            else:
+                fields[('f', idx)] = val
+                if self.tombstone_moves and isinstance(val, VAgg):
+                    frame.locals[local] = self.set_path(st, frame.locals[local], keys, TOMB) if keys else TOMB
+        return fields
 
     def coroutine_body(self, ctor_fn, name):
         m = re.match(r'^\{coroutine@(.*?)(?: \(#\d+\))?\}$', name)
@@ -763,8 +820,13 @@ class Engine:
                 st.meta['ret'] = rv
             return None
         caller = st.frames[-1]
+        if fr.tag == 'cont':
+            tag, data = st.meta['conts'][-1]
+            st.meta['conts'] = st.meta['conts'][:-1]
+            return self.conts[tag](self, st, data, rv)
         if fr.tag == 'filter_pred':
-            fid, dest, target, x = st.meta['filter_stack'].pop()
+            fid, dest, target, x = st.meta['filter_stack'][-1]
+            st.meta['filter_stack'] = st.meta['filter_stack'][:-1]
             b = self.as_int_expr(rv)
             some = VAgg(name='Option', vname='Some', disc=1, fields={('v', 'Some', 0): x})
             none = VAgg(name='Option', vname='None', disc=0)
@@ -854,6 +916,8 @@ class Engine:
         ty = _place_ty(fr.fn, t.place)
         val = self.read_place(st, fr, t.place)
         fr.bb = t.target
+        if self.drop_handler is not None:
+            return self.drop_handler(self, st, fr, val, ty, t)
         for rx, h in self.drop_hooks:
             if rx.search(ty or ''):
                 r = h(self, st, fr, val, ty, t)
